@@ -813,13 +813,16 @@ func (vfs *MemFS) Rename(oldpath, newpath string) error {
 			return &os.LinkError{Op: op, Old: oldpath, New: newpath, Err: nErr}
 		}
 
-	case *fileNode:
+	case *fileNode, *symlinkNode:
 		if nChild == nil {
 			break
 		}
 
+		// A file or a symbolic link can only replace a file or a symbolic link.
 		switch nc := nChild.(type) {
 		case *fileNode:
+			nc.delete()
+		case *symlinkNode:
 			nc.delete()
 		default:
 			err := error(avfs.ErrFileExists)
